@@ -30,6 +30,7 @@ import (
 )
 
 const verifDir = "/verif"
+
 // repoDir is /repo; VERIF_REPO overrides it for development against a scratch
 // worktree (never used by the registered commands).
 var repoDir = func() string {
